@@ -271,8 +271,12 @@ func uses(us []*ggql.DirectiveUse, dd dirDefs) []interface{} {
 		}
 		// defaults of the directive definition count as given (C16)
 		for _, a := range dd[name] {
-			if _, has := args[a.N]; !has && a.HasDef {
-				b, _ := json.Marshal(a.Def)
+			if _, has := args[a.N]; !has { // not given: the default, or null without one
+				dv := gq.Null()
+				if a.HasDef {
+					dv = a.Def
+				}
+				b, _ := json.Marshal(dv)
 				var x interface{}
 				_ = json.Unmarshal(b, &x)
 				args[a.N] = x
